@@ -251,6 +251,8 @@ def configs(tier, seed):
                 p2 = pos
             out.append(('enum', vs, p2, (i + pos) % 4 == 0, (i + pos) % 2 == 0, False)); n += 1
         out.append(('enum', [v], 0, False, i % 2 == 0, i % 3 == 0))
+        # a single-variant enum with a type-level expression: the expression wins over the single-variant shortcut
+        out.append(('enum', [v], 0, True, i % 2 == 1, False))
     # unions
     for nf in (1, 2, 3):
         for m in range(nf):
@@ -264,6 +266,7 @@ def configs(tier, seed):
         core = out[::3]
         # the single-field shortcuts of every handler (no designation needed) are always in: with and without an expression
         core += [o for o in out if o not in core and all(len(fl) == 1 for _, fl in o[1]) and len(o[1]) == 1]
+        core += [o for o in out if o not in core and o[0] == 'enum' and len(o[1]) == 1 and o[3]][::2]
         extra = rng.sample(out, 10)
         out = core + [e for e in extra if e not in core]
     return out
